@@ -768,6 +768,29 @@ class BitsOut(object):
         return ((self.acc << pad).to_bytes((self.n + pad) // 8, 'big')) if self.n else b''
 
 
+def exhibit_messages():
+    """hand-written programs that show a genuine defect which is RECORDED, not repaired (known_findings.jsonl): they
+    run in every C08 / C13 check; a violation on one of them carries its name in the signature, so that only that
+    input is matched by the known finding and a different violation of the property is still reported. The random
+    generators do not produce the class these stand for."""
+    out = []
+    b, _d = bufrgen.load_tables(29)
+    # the bits of ONE bitmap under TWO delayed replications, the first executed zero times: the interpreter goes on
+    # counting bits, the compiler - which walks each replication once - closes the bitmap at the second replication
+    ids = [12001, 12001, 222000, 236000, 101000, 31001, 31031, 101000, 31001, 31031, 33007, 33007]
+    bits = BitsOut()
+    for v, n in ((2731, 12), (2800, 12), (0, 8), (2, 8), (0, 1), (0, 1), (70, 7), (80, 7)):
+        bits.add(v, n)
+    spec = {'edition': 4, 'version': 29, 'local_version': 0, 'centre': 0, 'subcentre': 0, 'category': 0,
+            'subcategory': 0, 'local_subcategory': 0, 'update': 0, 'date': [2021, 2, 3, 4, 5, 6], 'sec2': None,
+            'pads': {}, 'compressed': False, 'observed': True, 'raw_ids': ids, 'raw_data': (bits.to_bytes() + b'\0').hex(),
+            'nsub': 1}
+    msg, _t = bufrgen.write_message(spec)
+    out.append({'ref': 'exhibit:bitmap-bits-in-two-replications', 'hex': msg.hex(), 'src': 'operator',
+                'opkind': 'exhibit', 'exhibit': 'bitmap-bits-in-two-replications'})
+    return out
+
+
 def operator_messages(seed, n):
     rng = random.Random(seed)
     out = []
